@@ -7,7 +7,7 @@ namespace GnoVerif.C43
 /-! ### uvarint -/
 
 theorem u8_ofNat_toNat (n : Nat) (h : n < 256) : (UInt8.ofNat n).toNat = n := by
-  simp [UInt8.toNat_ofNat, Nat.mod_eq_of_lt h]
+  simp [Nat.mod_eq_of_lt h]
 
 theorem u8_lt_128 (n : Nat) (h : n < 128) : UInt8.ofNat n < 0x80 := by
   rw [UInt8.lt_iff_toNat_lt, u8_ofNat_toNat n (by omega)]; simpa using h
@@ -16,7 +16,9 @@ theorem u8_not_lt_128 (n : Nat) (h : n < 128) : ¬ UInt8.ofNat (n + 128) < 0x80 
   rw [UInt8.lt_iff_toNat_lt, u8_ofNat_toNat (n+128) (by omega)]; simp
 
 theorem putUvarintAux_pos (f n : Nat) : 0 < (putUvarintAux f n).length := by
-  cases f <;> simp [putUvarintAux] <;> split <;> simp
+  cases f
+  · simp [putUvarintAux]
+  · simp only [putUvarintAux]; split <;> simp
 
 theorem goUvarintAux_put (f : Nat) : ∀ (k n i x s : Nat) (rest : Bytes),
     n < 128 ^ k → 1 ≤ k → k ≤ f + 1 → i + k ≤ 9 →
@@ -82,5 +84,35 @@ theorem uvarint?_put (n : Nat) (rest : Bytes) (h : n < 2 ^ 63) :
   simp only [Nat.zero_add, Nat.pow_zero, Nat.mul_one]
   have : ¬ (((putUvarintAux 9 n).length : Nat) : Int) ≤ 0 := by omega
   simp only [this, if_false, Int.toNat_natCast, List.drop_left]
+
+
+/-! ### keys and byte slices -/
+
+theorem uvarint?_byte (b : UInt8) (rest : Bytes) (hb : b < 0x80) :
+    uvarint? (b :: rest) = some (b.toNat, rest) := by
+  simp [uvarint?, goUvarint, goUvarintAux, hb]
+
+theorem key?_byte (b : UInt8) (rest : Bytes) (hb : b < 0x80) (h8 : 8 ≤ b.toNat) :
+    key? (b :: rest) = some (b.toNat / 8, b.toNat % 8, rest) := by
+  have hlt : b.toNat < 128 := by
+    have := UInt8.lt_iff_toNat_lt.mp hb; simpa using this
+  have h1 : ¬ b.toNat / 8 = 0 := by omega
+  have h2 : b.toNat / 8 ≤ 536870911 := by omega
+  simp [key?, uvarint?_byte b rest hb, h1, h2]
+
+theorem key?_0a (rest : Bytes) : key? (0x0a :: rest) = some (1, 2, rest) := by
+  rw [key?_byte _ _ (by decide) (by decide)]; rfl
+theorem key?_12 (rest : Bytes) : key? (0x12 :: rest) = some (2, 2, rest) := by
+  rw [key?_byte _ _ (by decide) (by decide)]; rfl
+theorem key?_08 (rest : Bytes) : key? (0x08 :: rest) = some (1, 0, rest) := by
+  rw [key?_byte _ _ (by decide) (by decide)]; rfl
+theorem key?_10 (rest : Bytes) : key? (0x10 :: rest) = some (2, 0, rest) := by
+  rw [key?_byte _ _ (by decide) (by decide)]; rfl
+theorem key?_1a (rest : Bytes) : key? (0x1a :: rest) = some (3, 2, rest) := by
+  rw [key?_byte _ _ (by decide) (by decide)]; rfl
+
+theorem byteSlice?_put (bs rest : Bytes) (h : bs.length < 2 ^ 63) :
+    byteSlice? (putUvarint bs.length ++ (bs ++ rest)) = some (bs, rest) := by
+  simp [byteSlice?, uvarint?_put _ _ h]
 
 end GnoVerif.C43
